@@ -98,7 +98,7 @@ def history_sessions(ctx, n):
                 if rng.random() < 0.5:
                     s.cmd(u, rng.choice(["CMD POWERON", "CMD POWERON", "CMD POWEROFF"]))
             for u in range(len(sim.trx)):
-                f = getattr(sim.trx[u], "_tx_freq", None)
+                f = sim.tuned(u)[1]
                 if isinstance(f, int) and 0 < f < 2 * 10 ** 9:
                     s.cmd(rng.randrange(len(sim.trx)), "CMD MEASURE %d" % (f // 1000))
         # long SETFH: up to 64 channel pairs
